@@ -192,7 +192,7 @@ func c06offCurveX(rng *rand.Rand) *big.Int {
 
 func runC06(c *mon.Ctx) {
 	pool := NewPool(c.Rand("pool"), 48)
-	nb := c.Pick(96, 2000)
+	nb := c.Pick(96, 8000)
 	for b := 0; b < nb; b++ {
 		if !c.Mine(b) {
 			continue
